@@ -377,7 +377,86 @@ func c13Concurrent(r *vf.Run, sid string, sp *serverProc, pool []c04Query) {
 			}
 		}(g)
 	}
+	// an impatient client next to them: the same kind of batches under deadlines of 1 to 40 ms, abandoned in flight
+	// (its own answers are not judged; what an abandoned request leaves behind must not change anybody else's)
+	var poolLeaves []*oracle.Expr
+	var collect func(e *oracle.Expr)
+	collect = func(e *oracle.Expr) {
+		if e.Op == '=' {
+			poolLeaves = append(poolLeaves, e)
+		}
+		for _, k := range e.Kids {
+			collect(k)
+		}
+	}
+	for _, q := range valid {
+		collect(q.E)
+	}
+	stopImpatient := make(chan struct{})
+	var abandoned atomic.Int64
+	var iwg sync.WaitGroup
+	iwg.Add(1)
+	go func() {
+		defer iwg.Done()
+		rng := r.RNG(cid + "/impatient")
+		conn, cl, err := dial(sp.addr)
+		if err != nil {
+			return
+		}
+		defer conn.Close()
+		// paced and bounded: the unchanged server finishes what its client has abandoned, so every abandoned request is
+		// load that nobody waits for; a few dozen of them do not slow the checking clients down
+		for i := 0; i < 150 && len(poolLeaves) > 0; i++ {
+			select {
+			case <-stopImpatient:
+				return
+			case <-time.After(8 * time.Millisecond):
+			}
+			// a wide OR over comparisons that also occur in the pool's queries (so that whatever the abandoned evaluation
+			// leaves behind concerns the other clients), new every time, under a deadline of 0.05 to 3 ms
+			wide := &oracle.Expr{Op: '|'}
+			for k := 0; k < 20+rng.Intn(30); k++ {
+				l := poolLeaves[rng.Intn(len(poolLeaves))]
+				if rng.Intn(5) == 0 {
+					l = oracle.Not(l)
+				}
+				wide.Kids = append(wide.Kids, l)
+			}
+			req := &pb.QueryRequest{Queries: []*pb.Query{{Id: 1, Expr: wide.ToProto()}}}
+			ctx, cancel := context.WithTimeout(context.Background(), time.Duration(50+rng.Intn(3000))*time.Microsecond)
+			if _, err := cl.Query(ctx, req); err != nil {
+				abandoned.Add(1)
+			}
+			cancel()
+		}
+	}()
 	wg.Wait()
+	close(stopImpatient)
+	iwg.Wait()
+	r.Count("requests_abandoned_by_an_impatient_client", abandoned.Load())
+	// at quiescence every query of the pool once more, one at a time
+	if bad.Load() == 0 {
+		if conn, cl, err := dial(sp.addr); err == nil {
+			for qi, q := range valid {
+				ctx, cancel := context.WithTimeout(context.Background(), 120*time.Second)
+				resp, err := cl.Query(ctx, &pb.QueryRequest{Queries: []*pb.Query{{Id: 7, Expr: q.proto(), GroupBy: q.GB}}})
+				cancel()
+				d := ""
+				if err != nil {
+					d = "rpc error for a valid query: " + err.Error()
+				} else {
+					d = compareBatch(resp, []c04Query{q}, []int32{7})
+				}
+				if d != "" {
+					bad.Add(1)
+					r.Violation(cid, "answer-after-concurrent-phase", map[string]any{"server": sid, "query": fmt.Sprintf("%s ; %q", q.E.String(), q.GB), "position_in_pool": qi, "difference": d,
+						"requests_abandoned_by_the_impatient_client": abandoned.Load(), "note": "asked alone after all clients had finished"})
+					break
+				}
+			}
+			conn.Close()
+		}
+	}
 	r.Eval(int(batches.Load()))
 	r.Distinct(cid)
 	r.Count("concurrent_batches", batches.Load())
@@ -472,6 +551,72 @@ func c13Driver(r *vf.Run, sid string, sp *serverProc, rng *rand.Rand, ds *gen.Da
 		}
 		r.Count("rows_compared_between_dsn_kinds", int64(len(gt.Rows)))
 	}
+	// the same handle used by 12 goroutines at once, four of them with a statement the server rejects: a valid statement
+	// gets its own rows, never somebody else's error
+	cid := sid + "/sql-concurrent"
+	if poisoned || !r.Want(cid) {
+		return
+	}
+	type stmtCase struct {
+		text string
+		want oracle.Answer
+		gb   []string
+	}
+	crng := r.RNG(cid)
+	var good []stmtCase
+	for len(good) < 12 {
+		e := gen.Expr(crng, ds, cols, crng.Intn(3), 3)
+		gb := gen.GroupBy(crng, ds, crng.Intn(3), 1500)
+		if !validUTF8Expr(e) {
+			continue
+		}
+		if w := oracle.Eval(ds.Rows, ds.Cols, e, gb); !w.Err {
+			good = append(good, stmtCase{gen.FormatQuery(e, gb), w, gb})
+		}
+	}
+	rejected := []string{`nosuchcolumn = "1"`, gen.FormatQuery(oracle.Eq(cols[0], "x"), []string{"nosuchcolumn"})}
+	var wg sync.WaitGroup
+	var bad atomic.Int64
+	var done atomic.Int64
+	for g := 0; g < 12; g++ {
+		wg.Add(1)
+		go func(g int) {
+			defer wg.Done()
+			for i := 0; i < 60 && bad.Load() == 0; i++ {
+				if g%3 == 0 {
+					rows, err := gdb.Query(rejected[(g+i)%len(rejected)])
+					if err == nil {
+						rows.Close()
+						if bad.Add(1) == 1 {
+							r.Violation(cid, "grpc-dsn-not-rejected", map[string]any{"text": rejected[(g+i)%len(rejected)], "server": sid})
+						}
+					}
+					continue
+				}
+				c := good[(g*7+i)%len(good)]
+				var t sqlTable
+				rows, err := gdb.Query(c.text)
+				if err == nil {
+					t, err = readRows(rows)
+				}
+				done.Add(1)
+				d := ""
+				if err != nil {
+					d = "error for a valid statement: " + err.Error()
+				} else {
+					d = compareTables(t, expectedTable(c.want, c.gb))
+				}
+				if d != "" && bad.Add(1) == 1 {
+					r.Violation(cid, "statement-under-concurrency", map[string]any{"text": fmt.Sprintf("%q", c.text), "difference": d, "server": sid,
+						"note": "12 goroutines on one grpc:// handle, four of them sending statements the server rejects"})
+				}
+			}
+		}(g)
+	}
+	wg.Wait()
+	r.Eval(int(done.Load()))
+	r.Count("driver_statements_under_concurrency", done.Load())
+	r.Distinct(cid)
 }
 
 // c13Conversions: ToQuery, ToProtobufResult, ToResult are lossless (in process).
